@@ -76,7 +76,7 @@ def configs(tier, seed=0):
     for fam in ['LMRF', 'CMRF', 'GMRF']:
         bcs = ['zero', 'periodic', 'neumann']
         for bc in bcs:
-            orders = [1, 2] if fam == 'GMRF' else [1]
+            orders = [0, 1, 2] if fam == 'GMRF' else [1]
             for order in orders:
                 ns = [3, 4] if tier == 'quick' else [2, 3, 4, 5]
                 for n in ns:
@@ -86,7 +86,9 @@ def configs(tier, seed=0):
                                 'order': order, 'n': n, 'phys': 1, 'box': True})
                 for n in ([2] if tier == 'quick' else [2, 3]):
                     out.append({'key': 'mrf/%s/%s/o%d/2d-n%d' % (fam, bc, order, n), 'kind': 'mrf', 'family': fam, 'bc': bc,
-                                'order': order, 'n': n, 'phys': 2, 'box': True})
+                                'order': order, 'n': n, 'phys': 2, 'box': True,
+                                # stretch: z3 does not decide this NRA+LOG query within the cap
+                                'stretch': fam == 'CMRF' and bc == 'periodic'})
     # cdfs
     for fam in ['Normal', 'Cauchy', 'Gamma', 'InverseGamma', 'Beta']:
         for d in [1, 2]:
@@ -108,15 +110,18 @@ def run(cfg, c):
         if B:
             for v in f.params.values():
                 cm.boxed(c, v, B)
+        if cfg['family'] == 'Gamma':
+            for e in x:
+                c.assume(e != 0, 'Gamma: boundary point x = 0 of the support excluded')
         val = f.dist.logpdf(x)
         ref = f.ref(x)
         c.prove_close('logpdf', val, ref, tol=1e-9, info=fk(cfg, 'logpdf'))
         # logd (what samplers use) differs from logpdf by a constant in x
-        x2 = cm.points(c, 'y', d, B=B, support=f.support)
-        if f.support is not None:
-            c.assume(f.support(x))
-        if kind != 'mrf' or cfg['n'] <= 3:
-            c.prove_close('logd-const', f.dist.logd(x) - f.dist.logd(x2), f.ref(x) - f.ref(x2), tol=1e-9, info=fk(cfg, 'logd-const'))
+        # logd (the un-normalised density samplers use) differs from logpdf by a constant in x
+        inside = True if f.support is None else bool(f.support(x))
+        if inside:
+            x2 = cm.points(c, 'y', d, B=B, support=f.support)
+            c.prove_close('logd-const', f.dist.logd(x) - val, f.dist.logd(x2) - f.dist.logpdf(x2), tol=1e-9, info=fk(cfg, 'logd-const'))
         if kind == 'univ' and cfg['family'] in ('Normal',) :
             M, S = cm.expand(f.params['m'], d), cm.expand(f.params['s'], d)
             pref = 1
